@@ -819,33 +819,46 @@ func ruleKindInjective(r *Run) {
 	if fn == nil {
 		return
 	}
-	// region of each kind constant → symbolic return value
-	type caseRet struct {
-		kind string
-		pat  string
-	}
-	var cases []caseRet
-	for _, c := range strCompares(fn) {
-		for b := range c.Region {
-			for _, in := range b.Instrs {
-				if ret, ok := in.(*ssa.Return); ok {
-					cases = append(cases, caseRet{c.Const, symOf(retResult(ret, 0)).Pattern()})
-				}
-			}
+	// every declared kind constant is pushed through the function (partial evaluation of the SSA
+	// body, following helpers): the resulting part-name patterns must be pairwise distinct
+	kinds := constsOfType(fn.Pkg.Pkg, "HeaderFooterType")
+	r.Min("header_footer_kinds", len(kinds), 3)
+	kindIdx := -1
+	for i, prm := range fn.Params {
+		if nt, ok := prm.Type().(*types.Named); ok && nt.Obj().Name() == "HeaderFooterType" {
+			kindIdx = i
 		}
 	}
-	r.Min("header_footer_kinds", len(cases), 3)
+	if kindIdx < 0 {
+		r.Unresolved("document.getFileNameForType(kind HeaderFooterType)")
+		return
+	}
 	seen := map[string]string{}
 	ok := true
 	detail := ""
-	for _, c := range cases {
-		if other, dup := seen[c.pat]; dup && other != c.kind {
-			ok = false
-			detail = fmt.Sprintf("kinds %q and %q both map to part name pattern %q: one definition overwrites the other", other, c.kind, c.pat)
-		}
-		seen[c.pat] = c.kind
+	var names []string
+	for n := range kinds {
+		names = append(names, n)
 	}
-	r.Check("kind-injective", "getFileNameForType", fn.Pos(), ok, "each header/footer kind has its own part name: "+map[bool]string{true: fmt.Sprintf("%d kinds, %d distinct patterns", len(cases), len(seen)), false: detail}[ok])
+	sort.Strings(names)
+	for _, n := range names {
+		args := make([]pv, len(fn.Params))
+		args[kindIdx] = pv{kinds[n], true}
+		res, complete := pevalCall(fn, args, 0, &pevalCtx{})
+		if !complete || len(res) == 0 {
+			r.Undecided("kind-injective", "getFileNameForType", fn.Pos(), fmt.Sprintf("the part name for kind %s could not be evaluated symbolically", n))
+			return
+		}
+		for _, pat := range res {
+			pat = showPV(pat)
+			if other, dup := seen[pat]; dup && other != n {
+				ok = false
+				detail = fmt.Sprintf("kinds %s and %s both map to part name pattern %q: one definition overwrites the other", other, n, pat)
+			}
+			seen[pat] = n
+		}
+	}
+	r.Check("kind-injective", "getFileNameForType", fn.Pos(), ok, "each header/footer kind has its own part name: "+map[bool]string{true: fmt.Sprintf("%d kinds, %d distinct patterns", len(kinds), len(seen)), false: detail}[ok])
 }
 
 // ownerViaCallers: a relationship (list) built in fn and returned: which Document list do the
